@@ -90,6 +90,20 @@ def run(ctx):
         ok = (e == "err ValueError") if not can else True
         R.oracle(f"explicit {m} {fmt_list(d)}", ok, dict(input=f"QRData({d!r}, mode={m})", expected="ValueError" if not can else "accepted", observed=e),
                  tag="P3:explicit")
+    # text arguments: the segments of add_data(text) are those of its UTF-8 bytes (Unicode digits / letters are not ASCII digits / the 45 set)
+    treq, tmeta = [], []
+    for tx in gens.TEXTS:
+        bts = tx.encode("utf-8")
+        for n in (0, 4, 20):
+            treq.append(f"adddata {fmt_list(bts)} {n}"); tmeta.append((tx, n, run_impl(lambda: impl_adddata(tx, n))))
+    for (tx, n, e), g in zip(tmeta, ask_parallel(treq, chunk=5000)):
+        R.oracle(f"text {n} {tx!r}", e == g, dict(input=f"add_data({tx!r}, optimize={n})", expected="the segments of its UTF-8 bytes: " + g[:120], observed=e[:200]), tag="P3:text")
+        for m in (1, 2):
+            bts = tx.encode("utf-8")
+            can = {1: all(48 <= c <= 57 for c in bts), 2: all(c in gens.ALN for c in bts)}[m] and len(bts) > 0
+            e2 = run_impl(lambda: (lambda q: f"{q.mode}:{fmt_list(q.data)}")(util.QRData(tx, mode=m)))
+            if not can and len(bts) > 0:
+                R.oracle(f"text explicit {m} {tx!r}", e2 == "err ValueError", dict(input=f"QRData({tx!r}, mode={m})", expected="ValueError", observed=e2), tag="P3:text-explicit")
     log(f"P3 done: {len(R.violations)} violations")
     R.assumptions += ["re semantics of the four patterns (leftmost-longest runs, ^...$ before a final newline) as stated in Model/Segment.lean",
                       "negative thresholds are outside the statement (n >= 0)"]
